@@ -52,7 +52,7 @@ let run (cases : string) : unit =
             List.map
               (fun spec ->
                 match String.split_on_char ':' spec with
-                | [ n; k; deps ] ->
+                | n :: k :: deps :: _ ->
                     (n_of_int (int_of_string n), (match k with "B" -> ABuild | "S" -> AService | _ -> AAggregate), ids '.' deps)
                 | _ -> failwith "bad target")
               (String.split_on_char ';' targets)
